@@ -2011,7 +2011,11 @@ class SQLCompiler(Compiled):
                     else:
                         value_param = bindparam
 
-                    if bindparam.callable:
+                    # the parameter that supplies the value (the one
+                    # extracted from the statement being executed when
+                    # this is a cache hit) decides whether it is a
+                    # callable, not the one of the cached statement
+                    if value_param.callable:
                         pd[escaped_name] = value_param.effective_value
                     else:
                         pd[escaped_name] = value_param.value
@@ -2045,7 +2049,7 @@ class SQLCompiler(Compiled):
                 else:
                     value_param = bindparam
 
-                if bindparam.callable:
+                if value_param.callable:
                     pd[escaped_name] = value_param.effective_value
                 else:
                     pd[escaped_name] = value_param.value
